@@ -9,6 +9,8 @@
 //                start = virtual µs after case start at which the thread calls do_call
 //                tmo   = rpc timeout in µs (-1 = none), req = request payload bytes,
 //                cap   = response buffer supplied by the caller (-1: none, the stub allocates)
+//              an optional 5th field (implementation-only replay of finding F34, not modelled): this call's
+//              writev blocks until that virtual time (event  w<i>:<until>@t)
 //   wire     : the bytes the peer sends, as items  H,<tag>,<size> (a valid 40-byte rpc::Header) |
 //              B,<n>,<seed> (n body bytes: (seed+j) mod 251) | X,<hex> (raw bytes)
 //   delivery : t,n ; t,n ; ... ; t,E     at virtual time t (µs after case start) the next n wire
@@ -58,7 +60,7 @@ extern int (*photon_verif_idle)(uint64_t usec, uint64_t next_wakeup) __attribute
 namespace {
 
 const uint64_t VSTART = 1000;
-struct CallSpec { uint64_t start, tmo; uint64_t req; int64_t cap; };
+struct CallSpec { uint64_t start, tmo; uint64_t req; int64_t cap; uint64_t wblock; };
 struct Delivery { uint64_t t; bool eof; size_t n; };
 struct Range { const char* base; size_t len; int owner; };
 
@@ -185,6 +187,14 @@ public:
         uint64_t tag = 0; uint32_t size = 0;
         if (all.size() >= 40) { memcpy(&size, &all[12], 4); memcpy(&tag, &all[24], 8); }
         ssize_t ret = (ssize_t)all.size();
+        {   // F34 replay only (not modelled): a writev that blocks until a scripted virtual time
+            int me = self_index();
+            if (me >= 0 && g_calls[me].wblock) {
+                uint64_t until = VSTART + g_calls[me].wblock;
+                ev("w%d:%" PRIu64 "@%" PRIu64, me, until, (uint64_t)photon::now);
+                while (photon::now < until) photon::thread_usleep(until - photon::now);
+            }
+        }
         if (shut) { errno = EPIPE; ret = -1; }
         ev("W%d:%" PRIu64 ":%u:%zd@%" PRIu64, self_index(), tag, size, ret, (uint64_t)photon::now);
         return ret;
@@ -264,8 +274,9 @@ bool parse_case(const std::string& line) {
     std::string h = trim(secs[0]);
     if (h.size() < 3 || h[0] != 'K') return false;
     for (auto& it : split(trim(secs[1]), ';')) {
-        auto f = split(trim(it), ','); if (f.size() != 4) return false;
+        auto f = split(trim(it), ','); if (f.size() != 4 && f.size() != 5) return false;
         CallSpec c; c.start = pu(f[0]); c.tmo = pu(f[1]); c.req = pu(f[2]); c.cap = (int64_t)strtoll(trim(f[3]).c_str(), nullptr, 10);
+        c.wblock = f.size() == 5 ? pu(f[4]) : 0;      // implementation-only cases (finding F34): this call's writev blocks until that time
         g_calls.push_back(c);
     }
     std::string w = trim(secs[2]);
